@@ -198,13 +198,26 @@ class OPA(BaseModelSingleSet):
         # -> target (feature1 x dummy)
 
         # Solve the symmetric eigenvalue problem
+        # The eigenvalues (decorrelation times) of the symmetric target matrix can
+        # be negative, whereas the SVD returns their absolute values ordered by
+        # magnitude. The lagged autocorrelations are bounded by
+        # (n - 1) / (n - tau - 1), which bounds the eigenvalues from below: shift
+        # the spectrum to be positive so that the SVD yields the eigendecomposition
+        # in algebraic (descending) order, and undo the shift afterwards.
+        shift = 0.5 + sum(
+            (n_samples - 1) / max(n_samples - tau - 1, 1)
+            for tau in range(1, tau_max + 1)
+        )
+        identity = xr.DataArray(
+            np.eye(target.shape[0]), dims=target.dims, coords=target.coords
+        )
         eigensolver = Decomposer(
             n_modes=self._params["n_modes"], flip_signs=False, solver="full"
         )
-        eigensolver.fit(target, dims=("feature1", "dummy"))
+        eigensolver.fit(target + shift * identity, dims=("feature1", "dummy"))
         U = eigensolver.U_
         # -> U (feature1 x mode)
-        lbda = eigensolver.s_
+        lbda = eigensolver.s_ - shift
         # -> lbda (mode)
         # U, lbda, ct = xr.apply_ufunc(
         #     np.linalg.svd,
